@@ -47,12 +47,19 @@ EXPECTED_PROBES = ["skip_name_at_depth_ge2", "skip_name_absent", "skip_name_is_a
 LEAF_KINDS = ["int", "float", "bool", "none", "str", "path", "list", "tuple", "dict", "set", "nd",
               "npscalar", "tensor", "module", "numseq"]
 TYPE_POOL = ["ndarray", "Tensor", "list", "tuple", "dict", "set", "str", "int", "float", "bool",
-             "Node", "Leaf", "Other", "Path", "Module", "Inner", "integer", "PosixPath"]
+             "Node", "Leaf", "Other", "Path", "Module", "Inner", "integer", "PosixPath",
+             # abstract base classes (instances by registration, not by inheritance), NumPy's
+             # abstract scalar hierarchy, the same-named classes of the second module, NoneType
+             "Mapping", "Sequence", "AbcSet", "Number", "Integral", "Real", "PathLike", "Sized",
+             "generic", "floating", "Node@2", "Inner@2", "NoneType"]
 C14_NAMES = ["a", "b", "c", "data", "_p", "x1", "info", "child", "p", "arr", "t", "k-1", "a.b",
              "ab", "arr2", "_p_", ".h", "fa", "A", "_a"]
 
 
 def _types(names):
+    import collections.abc
+    import numbers
+    import os
     import pathlib
 
     import qsim_models as qm
@@ -60,7 +67,12 @@ def _types(names):
     m = {"ndarray": np.ndarray, "Tensor": torch.Tensor, "list": list, "tuple": tuple, "dict": dict,
          "set": set, "str": str, "int": int, "float": float, "bool": bool, "Node": qm.Node,
          "Leaf": qm.Leaf, "Other": qm.Other, "Path": pathlib.PurePath, "Module": torch.nn.Module,
-         "Inner": qm.Outer.Inner, "integer": np.integer, "PosixPath": pathlib.PosixPath}
+         "Inner": qm.Outer.Inner, "integer": np.integer, "PosixPath": pathlib.PosixPath,
+         "Mapping": collections.abc.Mapping, "Sequence": collections.abc.Sequence,
+         "AbcSet": collections.abc.Set, "Number": numbers.Number, "Integral": numbers.Integral,
+         "Real": numbers.Real, "PathLike": os.PathLike, "Sized": collections.abc.Sized,
+         "generic": np.generic, "floating": np.floating, "Node@2": qm.CLASSES["Node@2"],
+         "Inner@2": qm.CLASSES["Inner@2"], "NoneType": type(None)}
     return [m[n] for n in names]
 
 
@@ -71,6 +83,8 @@ def setup():
 def _gen_tree(rng, opts, depth, maxdepth):
     cls = rng.pick(["Plain", "Node", "Leaf", "Other", "Plain", "Node", "AttrsLike", "Inner"]) if depth else \
         rng.pick(["Plain", "Node", "AttrsLike"])
+    if cls in ("Plain", "Node", "Inner") and rng.fork(("twin", depth)).chance(0.2):
+        cls += "@2"     # same class name, other module
     if cls == "AttrsLike":
         names = ["fa", "fb", "fc"]
     else:
